@@ -1,5 +1,5 @@
 (** C19: @skip/@include behave as textual deletion.  Statements only; proofs are in Gql/Proofs*.v. *)
-From Coq Require Import List String Bool.
+From Coq Require Import List String Bool ZArith.
 From Thunder Require Import Lib.Json Gql.Types Gql.Value Gql.Query Gql.Ref Gql.Exec Gql.ProofsDirective
   Gql.ProofsRef Gql.ProofsMain Gql.ProofsEnt Gql.ProofsTop Gql.ProofsPrune Gql.ProofsParsePrune Gql.Witness Gql.ProofsWitness.
 Import ListNotations.
@@ -96,6 +96,18 @@ Example theorem_hypotheses_satisfiable :
 Proof.
   split; [reflexivity|]. split; [reflexivity|]. split; [reflexivity|].
   split; [eexists; split; [vm_compute; reflexivity|vm_compute; reflexivity]|]. discriminate.
+Qed.
+
+(** Inline fragments without a type condition are in the grammar: where such a query is accepted (the
+    model's [parse] accepts it; /repo rejects it at Parse), the theorems above apply to it as to any other. *)
+Example untyped_inline_fragment_covered :
+  directives_wellformed [] w_untyped = true /\ ids_wf w_untyped = true /\
+  (exists s, parse [] w_untyped = Some s) /\
+  norm_result (exec_fifo fixed w_schema [] w_untyped w_root)
+  = Some (ROk (JObj [("r1", JObj [("s0", JNum 20%Z)])])).
+Proof.
+  split; [vm_compute; reflexivity|]. split; [vm_compute; reflexivity|].
+  split; [eexists; vm_compute; reflexivity|vm_compute; reflexivity].
 Qed.
 
 Example hypotheses_satisfiable :
